@@ -39,6 +39,12 @@ def _ref_preemph(x, c):
     x64 = np.asarray(x, dtype=np.float64)
     if x64.size == 0:
         return x64.copy()
+    if x64.shape[-1] > 5000:
+        # long signals: the same recurrence written once with shifted views (the sample loop below is the
+        # definition; both agree on every short signal of the run)
+        out = x64.copy()
+        out[..., 1:] = x64[..., 1:] - float(c) * x64[..., :-1]
+        return out
     flat = x64.reshape(-1, x64.shape[-1]) if x64.ndim else x64.reshape(1, 1)
     out = np.empty_like(flat)
     c = float(c)
@@ -169,6 +175,9 @@ def run_case(case, rec, mon=None):
     if kind == "preemph":
         for j in range(case["n"]):
             n = int(case["lengths"][j % len(case["lengths"])]) if case.get("lengths") else int(rng.integers(0, 300))
+            if case.get("long") and j < len(case["long"]):
+                n = int(case["long"][j])  # block-size boundaries of any chunked implementation
+                rec.count("preemph_long_signals")
             dtype = str(rng.choice(FLOATS + INTS))
             coeff = float(rng.choice([0.97, 0.0, 1.0, 0.5, -0.9, float(rng.uniform(-1.5, 1.5))]))
             two_d = rng.random() < 0.1
@@ -306,8 +315,10 @@ def plan(tier, seed):
     cases = []
     idx = 0
     # every length 0..40 for every dtype appears (lengths cycle deterministically)
+    LONG = [4095, 4096, 4097, 8193, 16385, 32767, 32768, 32769, 32770, 65536, 65537, 65538, 100001, 131073, 262145]
     for i in range(8 if q else 64):
-        cases.append({"kind": "preemph", "n": 250 if q else 700, "lengths": list(range(0, 41)) if i % 2 == 0 else None, "seed": seed, "idx": idx}); idx += 1
+        cases.append({"kind": "preemph", "n": 250 if q else 700, "lengths": list(range(0, 41)) if i % 2 == 0 else None, "seed": seed, "idx": idx,
+                      "long": LONG[(2 * i) % len(LONG):][:2] if q else LONG[i % len(LONG):][:4]}); idx += 1
     for i in range(4 if q else 32):
         cases.append({"kind": "dither", "n": 150 if q else 300, "seed": seed, "idx": idx}); idx += 1
     for i in range(2 if q else 8):
@@ -333,7 +344,7 @@ def run_shard(spec, rec):
 def finish(rec):
     monitor.require(rec, ["Preemphasize.apply", "Dither.apply"])
     for k in ("preemph_in_place_pairs", "dither_seed_pairs", "dither_independence_checks", "dither_linearity_checks", "dither_moment_checks", "dither_cast_checks",
-              "torch_preemph_calls", "torch_dither_seed_pairs"):
+              "torch_preemph_calls", "torch_dither_seed_pairs", "preemph_long_signals"):
         if not rec.counters[k]:
             rec.inconc("check %s never ran" % k)
 
